@@ -48,6 +48,10 @@ GEN_SPEC = {"items": [
     {"kind": "calls", "file": "lib/discov/publisher.go", "func": "Publisher.revoke", "as": "calls_revoke"},
     {"kind": "calls", "file": "lib/discov/publisher.go", "func": "Publisher.Stop", "as": "calls_Stop"},
     {"kind": "calls", "file": R, "func": "cluster.watchStream", "as": "calls_watchStream"},
+    {"kind": "calls", "file": R, "func": "Registry.GetConn", "as": "calls_GetConn"},
+    {"kind": "calls", "file": R, "func": "cluster.newClient", "as": "calls_newClient"},
+    {"kind": "calls", "file": R, "func": "cluster.getClient", "as": "calls_getClient"},
+    {"kind": "calls", "file": R, "func": "cluster.watch", "as": "calls_watch"},
 ]}
 QUICK_N = 300
 THOROUGH_N = 5000
@@ -71,7 +75,14 @@ TRUSTED = ["scripted etcd (fake EtcdClient in the driver: Get = sorted snapshot 
            "watch goroutines are serialised by the driver (one event, then an empty response as barrier, per stream); reload "
            "is awaited through the Watch call it ends with",
            "etcd revision semantics reduced to: the stream opened after a snapshot at revision r starts at r+1 and misses nothing"]
-ASSUMPTIONS = ["failing snapshot Gets: the scripted client honours the request context (fails at once on a done context, 'hang' answers only "
+ASSUMPTIONS = ["real-client cases (kind real): Registry/cluster on clientv3.New against an in-process member speaking the etcd gRPC wire "
+               "format (Status, Range, Watch; no replay of history to resumed watches); the member is stopped and restarted, reload is "
+               "triggered by the client's own connectivity states; request counters are not compared there (the client resumes its "
+               "watches itself); 4 directed histories, both start-up orders (GetConn before / after the first subscriber)",
+               "server-cancelled watch: the most recent stream of a prefix is cancelled (channel closed or cancel response); the scripted "
+               "client serves a stream created WithRev(r) the committed changes with revision >= r first; changes committed while no "
+               "replacement stream exists are store-only",
+               "failing snapshot Gets: the scripted client honours the request context (fails at once on a done context, 'hang' answers only "
                "when the context is done, 'err' fails immediately); RequestTimeout is set to 30 ms for these cases, the retries are "
                "coolDownInterval (1 s, a constant) apart, so 5 directed histories with 1-2 failed attempts each are run; registry changes "
                "during the failing period are store-only (no stream is open while a reload is pending)",
@@ -109,6 +120,7 @@ def _hist(rng, n_events=None, proviso=True, multi=None):
     p_miss = rng.choice([0.0, 0.2, 0.4, 0.7])
     p_del = rng.choice([0.3, 0.45, 0.6])
     p_batch = rng.choice([0.0, 0.1, 0.25])
+    p_cancel = rng.choice([0.0, 0.0, 0.06, 0.12]) if proviso else 0.0
     events = []
     nsubs = nreloads = 0
     present = set()
@@ -129,6 +141,24 @@ def _hist(rng, n_events=None, proviso=True, multi=None):
         if nreloads < max_reloads and r < 0.12:
             events.append({"t": "reload"})
             nreloads += 1
+            continue
+        if nsubs > 0 and rng.random() < p_cancel:
+            cp = rng.randrange(len(prefixes))
+            mode = rng.choice(["close", "canceled"])
+            if rng.random() < 0.5 and i + 2 < n:
+                # changes committed while no replacement stream exists yet (not delivered to anyone)
+                events.append({"t": "cancel", "mode": mode, "hold": True, "p": cp})
+                for _ in range(rng.randint(1, 3)):
+                    k = rng.choice(keys)
+                    if k in present and rng.random() < 0.5:
+                        events.append({"t": "del", "k": k, "d": False})
+                        present.discard(k)
+                    else:
+                        events.append({"t": "put", "k": k, "v": val[k], "d": False})
+                        present.add(k)
+                events.append({"t": "cancel_end"})
+            else:
+                events.append({"t": "cancel", "mode": mode, "hold": False, "p": cp})
             continue
         if proviso and rng.random() < p_batch:
             # several changes in ONE watch response: restarts (delete then put of a key), put then delete, mixed keys
@@ -235,6 +265,38 @@ def failing_get_family():
     ]
 
 
+def cancel_family():
+    """(r6-2) the server cancels a watch stream while the connection stays Ready; changes are committed after the
+    cancellation and before the replacement stream exists."""
+    H = lambda ev, pf=None: dict({"kind": "hist", "prefix": (pf or ["svc"])[0], "events": ev}, **({"prefixes": pf} if pf else {}))
+    C = lambda mode, hold=False, p=0: {"t": "cancel", "mode": mode, "hold": hold, "p": p}
+    END = {"t": "cancel_end"}
+    out = []
+    for mode in ("close", "canceled"):
+        out += [
+            H([SUB(), P("svc/1", "a"), C(mode, True), D("svc/1", False), P("svc/2", "b", False), END, P("svc/3", "a"), D("svc/2")]),
+            H([SUB(True), P("svc/1", "a"), P("svc/2", "a"), C(mode, True), D("svc/2", False), END, D("svc/1")]),
+            H([SUB(), P("svc/1", "a"), C(mode), D("svc/1"), SUB(), C(mode, True), P("svc/2", "b", False), END]),
+            H([SUB(p=0), SUB(p=1), P("svc/1", "a"), P("k/1", "b"), C(mode, True, 1), D("k/1", False), P("k/2", "c", False),
+               D("svc/1"), END, C(mode, True, 0), P("svc/2", "a", False), END], ["svc", "k"]),
+            H([SUB(), P("svc/1", "a"), RL, P("svc/2", "b"), C(mode, True), D("svc/2", False), D("svc/1", False), END, RL]),
+        ]
+    return out
+
+
+def real_family():
+    """(r6-1) both start-up orders (Registry.GetConn / Publisher.KeepAlive before or after the first subscriber) on the REAL etcd
+    client against an in-process member; the member goes away and comes back with changes only its snapshot shows."""
+    X = lambda ev: {"kind": "real", "prefix": "svc", "events": ev}
+    G, OUT, ON = {"t": "getconn"}, {"t": "outage"}, {"t": "online"}
+    return [
+        X([G, SUB(), P("svc/1", "a"), OUT, D("svc/1", False), P("svc/2", "b", False), ON, P("svc/3", "c"), D("svc/2")]),
+        X([SUB(), G, P("svc/1", "a"), OUT, D("svc/1", False), P("svc/2", "b", False), ON, D("svc/2")]),
+        X([P("svc/1", "a"), G, SUB(), SUB(True), P("svc/2", "a"), OUT, D("svc/2", False), ON, D("svc/1")]),
+        X([G, OUT, P("svc/1", "a", False), ON, SUB(), OUT, P("svc/2", "b", False), D("svc/1", False), ON, SUB()]),
+    ]
+
+
 def batch_family():
     """(r4-3) one watch response carrying several events."""
     B = lambda *items: {"t": "batch", "items": [({"t": "put", "k": k, "v": v} if v else {"t": "del", "k": k}) for k, v in items]}
@@ -333,8 +395,17 @@ def _res(rng):
                 out.append({"t": "put", "k": k, "v": val[k], "d": d})
                 present.add(k)
         return out
-    return {"kind": "res", "prefix": prefix, "pre": evs(rng.randint(0, 4), 0.3), "during": evs(rng.randint(0, 4), 0.0),
-            "post": evs(rng.randint(0, 5), 0.05)}
+    out = {"kind": "res", "prefix": prefix, "pre": evs(rng.randint(0, 4), 0.3), "during": evs(rng.randint(0, 4), 0.0)}
+    if rng.random() < 0.4:
+        # a second target (another key on the same endpoints) built by the same builder
+        second = "pay.rpc"
+        keys += ["%s/%d" % (second, 7600 + i) for i in range(rng.randint(1, 3))]
+        for k in keys:
+            val.setdefault(k, VALS[rng.randrange(nv)])
+        out["mid"] = evs(rng.randint(0, 3), 0.0)
+        out["second"] = second
+    out["post"] = evs(rng.randint(0, 6), 0.05)
+    return out
 
 
 def late_join_family():
@@ -379,12 +450,18 @@ def resolver_family():
         R([P("svc/1", "a"), P("svc/2", "a")], [D("svc/1")], [D("svc/2")]),
         R([], [], []),
         R([P("svc/1", "a")], [], [D("svc/1")]),
+        # (r6-3) two targets built by the same registered builder: the first ClientConn keeps following its own key
+        dict(R([P("svc/1", "a"), P("k/1", "x")], [], [D("svc/1"), P("k/2", "y"), P("svc/2", "b"), D("k/1")]), second="k",
+             mid=[P("svc/3", "c")]),
+        dict(R([], [P("svc/1", "a")], [P("svc/2", "b"), D("svc/1")]), second="k", mid=[]),
+        dict(R([P("svc/1", "a")], [], [D("svc/1")]), second="k", mid=[]),
+        dict(R([P("k/1", "x")], [], [P("k/2", "y"), P("svc/1", "a"), D("k/1"), D("k/2")]), second="k", mid=[P("k/3", "x")]),
     ]
 
 
 def generate(rng, tier, n):
     cases = (list(directed()) + resolver_family() + late_join_family() + duplicate_family() +
-             publisher_family() + multi_prefix_family() + batch_family() + failing_get_family())
+             publisher_family() + multi_prefix_family() + batch_family() + failing_get_family() + cancel_family() + real_family())
     nres = max(6, n // 12)
     for _ in range(nres):
         cases.append(_res(rng))
@@ -404,7 +481,7 @@ def generate(rng, tier, n):
 
 def search(rng, problems):
     out = (list(directed()) + resolver_family() + late_join_family() + duplicate_family() +
-           publisher_family() + multi_prefix_family() + batch_family() + failing_get_family())
+           publisher_family() + multi_prefix_family() + batch_family() + failing_get_family() + cancel_family() + real_family())
     out += [_res(rng) for _ in range(20)] + [_pub(rng) for _ in range(20)]
     for _ in range(60):
         out.append(_hist(rng, n_events=rng.randint(4, 10)))
@@ -421,6 +498,7 @@ def _projections(case, ho):
     for pi, pfx in enumerate(prefixes):
         evs, sts = [], []
         pending = None        # a sub/reload whose snapshot Gets fail until fail_off
+        cancel_p = None
         held = []             # calls the listener of a pending subscription received before its load succeeded (the replay)
         for j, ev in enumerate(case["events"]):
             st = None
@@ -445,6 +523,16 @@ def _projections(case, ho):
                 held = []
             elif ev["t"] == "sub" and ev.get("p", 0) != pi:
                 continue
+            elif ev["t"] == "cancel":
+                # the server cancels the newest stream of one prefix; held: the replacement comes at cancel_end
+                cancel_p = ev.get("p", 0)
+                if cancel_p != pi or ev.get("hold"):
+                    continue
+                out_ev = {"t": "rewatch"}
+            elif ev["t"] == "cancel_end":
+                if cancel_p != pi:
+                    continue
+                out_ev = {"t": "rewatch"}
             else:
                 out_ev = ev
             if st is not None and mine_pending and st["calls"]:
@@ -456,6 +544,34 @@ def _projections(case, ho):
         sts = sts[:min(len(sts), len(evs))]
         out.append({"prefix": pfx, "events": evs, "steps": sts})
     return out
+
+
+def _real_events(case):
+    out = []
+    for ev in case["events"]:
+        if ev["t"] in ("getconn", "outage"):
+            continue
+        out.append({"t": "reload"} if ev["t"] == "online" else ev)
+    return out
+
+
+def _real_projection(case, ho):
+    """history driven through the real etcd client: GetConn and the start of an outage are no model events, the
+    connection coming back is the Reload; the request counters are not observed (loose comparison)"""
+    steps = ho.get("steps") or []
+    evs, sts = [], []
+    for j, ev in enumerate(case["events"]):
+        if ev["t"] in ("getconn", "outage"):
+            if j < len(steps) and steps[j]["stuck"]:
+                # the run stopped here: keep it visible as a step of the next model event
+                pass
+            continue
+        evs.append({"t": "reload"} if ev["t"] == "online" else ev)
+        if j < len(steps):
+            st = dict(steps[j])
+            st.update({"watchers": 0, "gets": 0, "opened": 0, "get_rev": 0, "watch_rev": -1, "watch_pfx": ""})
+            sts.append(st)
+    return {"prefix": case["prefix"], "events": evs, "steps": sts[:len(evs)]}
 
 
 def _cont_cases_of(proj):
@@ -479,9 +595,19 @@ def _cont_cases_of(proj):
 
 
 def drive(cases, tier):
+    import concurrent.futures as cf
     log = ""
     hist_idx = [i for i, c in enumerate(cases) if c["kind"] == "hist"]
+    real_idx = [i for i, c in enumerate(cases) if c["kind"] == "real"]
+    res_idx = [i for i, c in enumerate(cases) if c["kind"] == "res"]
     hobs = []
+    ex = cf.ThreadPoolExecutor(max_workers=3)
+    # the real-client and resolver drivers do not depend on the others: they run meanwhile
+    f_real = ex.submit(vlib.run_driver, GO_PKG, [{"prefix": cases[i]["prefix"], "events": cases[i]["events"]} for i in real_idx],
+                       "C15x_" + tier[0], DRIVER_TIMEOUT, None, "^TestVerifRealDriver$") if real_idx else None
+    f_res = ex.submit(vlib.run_driver, GO_PKG_RES,
+                      [{k: cases[i].get(k) or ([] if k != "second" else "") for k in ("prefix", "pre", "during", "mid", "second", "post")}
+                       for i in res_idx], "C15r_" + tier[0], DRIVER_TIMEOUT) if res_idx else None
     if hist_idx:
         inp = []
         for i in hist_idx:
@@ -491,11 +617,26 @@ def drive(cases, tier):
         log += l1
         if hobs is None:
             return None, log
+    xobs = []
+    if f_real is not None:
+        xobs, lx = f_real.result()
+        log += lx
+        if xobs is None:
+            return None, log
     per_case = {}
     cont_in = []
     for i, ho in zip(hist_idx, hobs):
         bad = "driver_panic" in ho or "error" in ho
         projs = [] if bad else _projections(cases[i], ho)
+        for pr in projs:
+            pr["subs"] = _cont_cases_of(pr)
+            for s_ in pr["subs"]:
+                s_["slot"] = len(cont_in)
+                cont_in.append({"excl": s_["excl"], "ops": s_["ops"]})
+        per_case[i] = {"projs": projs, "panic": ho.get("driver_panic") or ho.get("error")}
+    for i, ho in zip(real_idx, xobs):
+        bad = "driver_panic" in ho or "error" in ho
+        projs = [] if bad else [_real_projection(cases[i], ho)]
         for pr in projs:
             pr["subs"] = _cont_cases_of(pr)
             for s_ in pr["subs"]:
@@ -512,11 +653,9 @@ def drive(cases, tier):
         if c["kind"] == "pub":
             pub_slot[i] = len(cont_in)
             cont_in.append({"kind": "pub", "key": c["key"], "value": c["value"], "id": c["id"], "pops": c["pops"]})
-    res_idx = [i for i, c in enumerate(cases) if c["kind"] == "res"]
     robs = {}
-    if res_idx:
-        ro, l3 = vlib.run_driver(GO_PKG_RES, [{k: cases[i][k] for k in ("prefix", "pre", "during", "post")} for i in res_idx],
-                                 name="C15r_" + tier[0], timeout=DRIVER_TIMEOUT)
+    if f_res is not None:
+        ro, l3 = f_res.result()
         log += l3
         if ro is None:
             return None, log
@@ -579,22 +718,34 @@ def _item(ids, it):
     return "BPut %s %s" % (ids.key(it["k"]), ids.val(it["v"])) if it["t"] == "put" else "BDel %s" % ids.key(it["k"])
 
 
-def _encode_res(case, obs):
+def _encode_res_one(prefix, events_in, states, fine):
     ids = _Ids()
     events = []
-    for ev in case["pre"] + [{"t": "sub"}] + case["during"] + case["post"]:
+    for ev in events_in:
         if ev["t"] == "put":
             events.append("Put %s %s %s" % (ids.key(ev["k"]), ids.val(ev["v"]), cbool(ev["d"])))
         elif ev["t"] == "del":
             events.append("Del %s %s" % (ids.key(ev["k"]), cbool(ev["d"])))
         else:
             events.append("Subscribe [] [] []")
-    r = obs.get("res") or {}
-    states = r.get("states") or []
-    fine = bool(r) and r.get("stuck") == "" and r.get("gated") and r.get("streams") == 1
-    under = [ids.key(k) for k in sorted(ids.k) if k.startswith(case["prefix"] + "/")]
+    under = [ids.key(k) for k in sorted(ids.k) if k.startswith(prefix + "/")]
     q = "mkres %s %s" % (clist([clist([ids.val(v) for v in st]) for st in states]), cbool(fine))
-    return "CHist [mkcase %s %s [] [] (Some (%s))]" % (clist(under), clist(events), q)
+    return "mkcase %s %s [] [] (Some (%s)) false" % (clist(under), clist(events), q)
+
+
+def _encode_res(case, obs):
+    r = obs.get("res") or {}
+    second = case.get("second") or ""
+    mid = case.get("mid") or []
+    ok = bool(r) and r.get("stuck") == "" and r.get("streams") == (2 if second else 1)
+    sub = [{"t": "sub"}]
+    out = [_encode_res_one(case["prefix"], case["pre"] + sub + case["during"] + mid + case["post"],
+                           r.get("states") or [], bool(ok and r.get("gated")))]
+    if second:
+        # the second target, built by the same builder after `mid`: its own subscriber, its own ClientConn
+        out.append(_encode_res_one(second, case["pre"] + case["during"] + mid + sub + case["post"],
+                                   r.get("states2") or [], bool(ok)))
+    return "CHist %s" % clist(out)
 
 
 POPS = {"start": "OStart", "lose": "OLose false", "losex": "OLose true", "pause": "OPause", "resume": "OResume", "stop": "OStop"}
@@ -621,7 +772,7 @@ def _encode_pub(case, obs):
     return "CPub (mkpub %s %s %s %s)" % (idt, cnat(1), clist([POPS[o] for o in case["pops"]]), clist(rows))
 
 
-def _encode_proj(prefix, pr):
+def _encode_proj(prefix, pr, loose=False):
     ids = _Ids()
     events, steps = [], []
     sts = pr.get("steps") or []
@@ -637,6 +788,8 @@ def _encode_proj(prefix, pr):
             events.append("Batch %s" % clist([_item(ids, it) for it in ev["items"]]))
         elif ev["t"] == "getfail":
             events.append("GetFail")
+        elif ev["t"] == "rewatch":
+            events.append("Rewatch")
         elif ev["t"] == "reload":
             first = calls[0] if calls else []
             events.append("Reload %s %s" % (_keys(ids, first, "+"), _keys(ids, first, "-")))
@@ -674,7 +827,7 @@ def _encode_proj(prefix, pr):
     under = []
     if prefix is not None:
         under = [ids.key(k) for k in sorted(ids.k) if k.startswith(prefix + "/")]
-    return "mkcase %s %s %s %s None" % (clist(under), clist(events), clist(steps), clist(conts))
+    return "mkcase %s %s %s %s None %s" % (clist(under), clist(events), clist(steps), clist(conts), cbool(loose))
 
 
 def encode(case, obs):
@@ -683,12 +836,14 @@ def encode(case, obs):
     if case["kind"] == "pub":
         return _encode_pub(case, obs)
     projs = obs.get("proj") or []
+    if case["kind"] == "real" and not projs:
+        projs = [{"prefix": case["prefix"], "events": _real_events(case), "steps": [], "conts": []}]
     if case["kind"] == "hist" and not projs:
         # the driver gave nothing: a history without observations never matches the model
         prefixes = case.get("prefixes") or [case["prefix"]]
         projs = [{"prefix": prefixes[0], "events": [e for e in case["events"] if e["t"] != "sub" or e.get("p", 0) == 0],
                   "steps": [], "conts": []}]
-    return "CHist %s" % clist([_encode_proj(pr.get("prefix"), pr) for pr in projs])
+    return "CHist %s" % clist([_encode_proj(pr.get("prefix"), pr, loose=(case["kind"] == "real")) for pr in projs])
 
 
 # ----------------------------------------------------------------------------- evidence helpers
@@ -697,6 +852,8 @@ def nontrivial(case, obs):
         return len(case["during"]) > 0
     if case["kind"] == "pub":
         return any(o in ("lose", "losex") for o in case["pops"]) and case["pops"][-1] in ("stop", "pause")
+    if case["kind"] == "real":
+        return any(e["t"] == "online" for e in case["events"])
     if case["kind"] != "hist":
         return False
     seen_sub = missed = repaired = dele = False
@@ -716,7 +873,7 @@ def nontrivial(case, obs):
 
 def bucket(case, obs):
     if case["kind"] == "res":
-        return ["kind:res", "res-during=%d" % len(case["during"]), "res-post=%d" % len(case["post"])] + (
+        return ["kind:res", "res-during=%d" % len(case["during"]), "res-post=%d" % len(case["post"])] + (["res-two-targets"] if case.get("second") else []) + (
             ["STUCK"] if (obs.get("res") or {}).get("stuck") else [])
     if case["kind"] == "pub":
         return ["kind:pub", "pub-id" if case["id"] else "pub-lease-key", "pub-losses=%d" % sum(o.startswith("lose") for o in case["pops"])] + (
@@ -724,7 +881,7 @@ def bucket(case, obs):
     if case["kind"] == "cont":
         return ["kind:cont", "cont-excl" if case["excl"] else "cont-shared", "cont-ops=%d" % (len(case["ops"]) // 10 * 10)]
     ev = case["events"]
-    out = ["kind:hist", "events=%d+" % (len(ev) // 10 * 10), "reloads=%d" % sum(e["t"] == "reload" for e in ev),
+    out = ["kind:" + case["kind"], "events=%d+" % (len(ev) // 10 * 10), "reloads=%d" % sum(e["t"] == "reload" for e in ev),
            "subs=%d" % sum(e["t"] == "sub" for e in ev)]
     if any(e["t"] == "sub" and e.get("x") for e in ev):
         out.append("has-exclusive")
